@@ -284,7 +284,7 @@ def check(ctx):
     wd = tlc.workdir("cfg_C07")
     events = []
     n = 0
-    n_model = ctx.pick(350, len(cfgs))
+    n_model = ctx.pick(350, min(len(cfgs), 3000))
     cases = cfgs[:n_model] + [rand_cfg(ctx.rng) for _ in range(ctx.pick(150, 2500))]
     ctx.cov["model_configurations_replayed"] = min(n_model, len(cfgs))
     ctx.cov["exhaustive"] = n_model >= len(cfgs)
